@@ -535,3 +535,31 @@ var concProp = h.Define(P, "concurrent", func(t *rapid.T) ConcCase {
 }, runConc)
 
 func TestConcurrentContainers(t *testing.T) { concProp.Check(t) }
+
+// TestSizeSweep: a token of every sealed size around the framing / buffer
+// boundaries, alone and next to a small one, through every format and
+// writer / reader variant.
+func TestSizeSweep(t *testing.T) {
+	small := fixedSets()[1][0]
+	n := 0
+	for _, size := range tok.SweepSizes() {
+		d, _, ok := tok.PaddedDlg(size)
+		if !ok {
+			continue
+		}
+		for fi, f := range ctr.Formats {
+			for v := 0; v < 4; v++ {
+				if (size+fi+v)%2 == 1 && !h.Thorough() {
+					continue // quick: half of the variant matrix per size, alternating
+				}
+				set := []tok.Tok{d}
+				if v%2 == 1 {
+					set = []tok.Tok{small, d}
+				}
+				prop.One(t, Case{Toks: set, Order: []int{v}, Format: f, WStream: v&1 == 1, RStream: v&2 == 2})
+				n++
+			}
+		}
+	}
+	P.SetExtra("size_sweep_cases", n)
+}
